@@ -143,6 +143,14 @@ def check_patches(prog, r):
             lv = (t["args"][1].get("c") or t["args"][1].get("m") or {}).get("l")
             if lv in flow:
                 ok_val = True
+        # the same write spelled with the standard library: `dst[a..b].copy_from_slice(&value.to_be_bytes())`
+        for bi, t in fv.calls(re.compile(r".*::to_be_bytes$")):
+            if not any(bi in fv.reach_after(p) or bi == p for p in patches):
+                continue
+            seen_val = seen_val or Renderer(fv, depth=8).operand(t["args"][0], 8)
+            lv = (t["args"][0].get("c") or t["args"][0].get("m") or {}).get("l")
+            if lv in flow:
+                ok_val = True
         if ok_val:
             r.ok("%s: value patched in is len(dst) - %s (%s)" % (short(fv.name), startv, why))
         elif patches:
